@@ -65,6 +65,13 @@ CLAIMS = {
         "note": "The layout choices are enumerated by forking (bounded shape); the solver is only needed for feasibility. Trusted: E2 std models. Outside: element kinds not in the template, edit locality.",
         "technique": "bounded symbolic execution of MIR (fork per layout choice), native replay of counterexamples and sampled paths",
     },
+    "C11": {
+        "engine": "E2-mirsym",
+        "text": "check() is executed by the symbolic executor on modules produced by the real parser from a template that populates 41 reference sites: the consistent module yields an empty report, each single corrupted site yields a cross reference error naming the missing target and no other cross reference error, the NO_* conventions are honoured, the model is unchanged, and 0..=7 AXIS_DESCR never make it panic.",
+        "design_ref": "DESIGN.md section 4 C11",
+        "note": "The cases are enumerated by forking (bounded shape: one corrupted site at a time). Trusted: E2 std models. Outside: THIS. references, group structure, combinations of several corrupted sites.",
+        "technique": "bounded symbolic execution of MIR (fork per corrupted site), native replay of counterexamples and of every explored path",
+    },
 }
 
 _PENDING = "check not built yet in this revision of /verif (see DESIGN.md section 7 for the order of work)"
